@@ -9,6 +9,41 @@ import (
 	"golang.org/x/tools/go/ssa"
 )
 
+// loopVarRep: for an Alloc that reaches a pointer-typed phi together with other Allocs
+// (the lowering of Go 1.22 per-iteration loop variables), the first Alloc of that phi.
+func (fr *Frame) loopVarRep(a *ssa.Alloc) *ssa.Alloc {
+	if fr.lvRep == nil {
+		fr.lvRep = map[*ssa.Alloc]*ssa.Alloc{}
+		for _, b := range fr.fn.Blocks {
+			for _, in := range b.Instrs {
+				phi, ok := in.(*ssa.Phi)
+				if !ok {
+					continue
+				}
+				if _, isPtr := phi.Type().Underlying().(*types.Pointer); !isPtr {
+					continue
+				}
+				var as []*ssa.Alloc
+				all := true
+				for _, e := range phi.Edges {
+					if al, ok := e.(*ssa.Alloc); ok {
+						as = append(as, al)
+					} else {
+						all = false
+					}
+				}
+				if !all || len(as) < 2 {
+					continue
+				}
+				for _, al := range as[1:] {
+					fr.lvRep[al] = as[0]
+				}
+			}
+		}
+	}
+	return fr.lvRep[a]
+}
+
 func allocEscapes(a *ssa.Alloc) bool {
 	refs := a.Referrers()
 	if refs == nil {
@@ -66,6 +101,17 @@ func (fr *Frame) step(in ssa.Instruction, cond T, st *State) T {
 			}
 			fr.env[i] = sv
 			return cond
+		}
+		if rep := fr.loopVarRep(i); rep != nil {
+			if c, ok := fr.cells[rep]; ok {
+				// Go 1.22 per-iteration copy of a 3-clause loop variable (materialised when a
+				// closure captures it): it continues the loop variable's cell.
+				vc.assume("per-iteration copies of a captured for-loop variable are identified with the loop variable: closures capturing it are assumed not to be called after their iteration ended")
+				fr.cells[i] = c
+				st.setCell(c, vc.zeroVal(et))
+				fr.env[i] = &PtrV{Kind: PCell, Cell: c}
+				return cond
+			}
 		}
 		vc.ncell++
 		name := i.Comment
@@ -453,6 +499,16 @@ func (fr *Frame) binop(i *ssa.BinOp, cond T) Val {
 		r := vc.fresh("bv", SInt)
 		vc.assert(Eq(r, app(SInt, fn, x, y)))
 		vc.typeAssume(r, rt)
+		// sound bounds for non-negative operands (everything else about the bit pattern stays unknown)
+		nonneg := And(Le(I(0), x), Le(I(0), y))
+		switch i.Op {
+		case token.OR:
+			vc.assert(Imp(nonneg, And(Le(x, r), Le(y, r), Le(r, Add(x, y)))))
+		case token.XOR:
+			vc.assert(Imp(nonneg, And(Le(I(0), r), Le(r, Add(x, y)))))
+		case token.AND:
+			vc.assert(Imp(nonneg, And(Le(I(0), r), Le(r, x), Le(r, y))))
+		}
 		return r
 	}
 	return vc.freshVal(i.Type(), "binop")
